@@ -69,6 +69,7 @@ fn main() {
         "orderings" => vharness::pure::drive_orderings(&mut cx),
         "measures" => vharness::pure::drive_measures(&mut cx, &hist),
         "inserttxn" => vharness::txn::drive_inserttxn(&mut cx, &hist),
+        "removetxn" => vharness::txn::drive_removetxn(&mut cx, &hist),
         _ => { eprintln!("unknown family {fam}"); std::process::exit(2); }
     }
     cx.tr.flush();
